@@ -121,7 +121,7 @@ func TestVerifC19Flows(t *testing.T) {
 									}
 									r.Outcome(cls + fmt.Sprintf("; token age %s: accepted=%v", c19AgeClass(b, S.ttl), ok3))
 									distinct[fmt.Sprint(flow, kt, ci, srv, host, a, b)] = struct{}{}
-									if a == c19ChallengeTTL-time.Second && b == S.ttl+time.Nanosecond {
+									if a == c19ChallengeTTL-time.Second && b == S.ttl+time.Nanosecond && len(r.Samples) < 2 {
 										r.Sample(map[string]any{"history": name, "step2": fmt.Sprintf("status %d next=%d", r2.status, r2.next), "step3": fmt.Sprintf("status %d next=%d", r3.status, r3.next)})
 									}
 								})
